@@ -44,6 +44,7 @@ def main():
             print(c, results[c], flush=True)
     finally:
         subprocess.run(["git", "-C", "/repo", "reset", "-q", "--hard", "HEAD"])
+        subprocess.run(["git", "-C", "/repo", "clean", "-fdq", "--", "src"])     # files a patch added
     print(json.dumps(results))
     return 0
 
